@@ -410,7 +410,7 @@ func (c19) Build(tier string, seed uint64) []any {
 			}
 		}
 	}
-	nPartial, nSmall, nRand, nBig := 40, 40, 120, 0
+	nPartial, nSmall, nRand, nBig := 40, 40, 120, 4
 	if th {
 		nPartial, nSmall, nRand, nBig = 4000, 4000, 25000, 400
 	}
